@@ -101,8 +101,8 @@ def new_spec(kind, semantics='standard'):
 # just before their first evaluate()/update(), over the fields of ONE object-typed input variable
 # (rtverif/structs.py: `x >= 1` becomes `pp.position.x >= 1`) and all their data are folded into objects
 # accordingly.  The semantics is the same, so are the oracles.  Objects with io types or an interface-aware
-# semantics are left alone (two fields of one variable cannot have different io types); dense-time online
-# objects only when the workload asks for it (sd['structify'], all batches aligned).
+# semantics are left alone (two fields of one variable cannot have different io types); dense-time objects
+# only when the workload asks for it (sd['structify']: every call passes aligned signals).
 STRUCT = None
 STRUCT_P = 0.05
 
@@ -187,18 +187,17 @@ class Mon(object):
         if sd.get('structify'):
             self._struct_wanted = True
         else:
-            self._struct_wanted = (STRUCT is not None and parse and kind not in ('ct', 'ct_on')
+            # (dense time only on request: the workload must guarantee that every call passes aligned signals)
+            self._struct_wanted = (STRUCT is not None and parse and kind.startswith('dt')
                                    and not sd.get('io') and sd.get('semantics', 'standard') == 'standard'
                                    and not sd.get('struct') and STRUCT.random() < STRUCT_P)
-        if kind == 'ct' and self._struct_wanted and not sd.get('structify'):
-            self._struct_wanted = 'offline-only'      # decided at the first call: evaluate() yes, update() no
 
     def _structify(self, method, args):
         """First evaluate()/update(): decide on the struct spelling and re-build the object over it."""
         from rtverif import structs
         self._struct = False
         want = self._struct_wanted
-        if not want or (want == 'offline-only' and method != 'evaluate'):
+        if not want:
             return
         try:
             if method == 'evaluate' and len(args) == 1 and isinstance(args[0], dict):
